@@ -406,7 +406,9 @@ func evalC02(c c02Case, rec *hx.Rec) error {
 	}
 	rec.Label("accept:honest")
 	txs := append([]transform(nil), c.Tx...)
-	txs = append(txs, transform{Kind: "splice_D"}, transform{Kind: "splice_IPA"})
+	zseed := hx.Hash64(fmt.Sprint(c.Set.Open))
+	txs = append(txs, transform{Kind: "splice_D"}, transform{Kind: "splice_IPA"},
+		transform{Kind: "zero_elem", I: int(zseed % 8), J: int(zseed >> 8 % 8), Seed: zseed >> 16})
 	for _, tx := range txs {
 		t, ok := applyMulti(h, second, tx)
 		if !ok {
@@ -475,7 +477,8 @@ func evalC02IPA(c c02Case, b *builtSet, rec *hx.Rec) error {
 	if err := judge("ipa", "honest point="+c.Point, "honest", ro, re, io, ie, pe); err != nil {
 		return err
 	}
-	for _, tx := range c.IPATx {
+	ipaTxs := append(append([]transform(nil), c.IPATx...), transform{Kind: "zero_elem", J: int(hx.Hash64(c.Point) % 8), Seed: hx.Hash64(c.Point, "z") >> 7})
+	for _, tx := range ipaTxs {
 		t := h
 		t.L = append([]hx.RPt(nil), h.L...)
 		t.R = append([]hx.RPt(nil), h.R...)
